@@ -21,10 +21,8 @@ Definition c10_validator_needs_json_escape (p : pos) (s : bytes) : bool :=
     the object up under the untrimmed string. *)
 Definition c10_id_trimmed (id : bytes) : bool := negb (bytes_eqb (rust_trim id) id).
 
-(** C10: validate_content_dir accepts the empty name; content paths then contain
-    an empty part and cannot be parsed again. *)
-Definition c10_cdir_empty (cdir : bytes) : bool := is_empty cdir.
-
-(** C10: a content directory named like the inventory or its sidecar collides
-    with those files inside the version directory at commit time. *)
-Definition c10_cdir_collides_with_inventory (cdir alg : bytes) : bool := cdir_collides cdir alg.
+(** The former classes cdir-empty and cdir-collides-with-inventory were repaired in
+    /repo by d88c1da (create_object refuses a blank content directory and every name
+    that is `inventory.json` or begins with `inventory.json.`, repo.rs:574-583); their
+    classifiers are gone, the theorems of Props/C10.v hold for those inputs
+    unconditionally ([Json.create_object_cdir]). *)
